@@ -38,7 +38,8 @@ MANIFEST = dict(
           "remains and removes only the deleted elements and purged link elements; a reference that refuses purging makes "
           "the deletion raise before anything is written. Tied to /repo by extracting the reference graph around each "
           "deletion target with a raw scan and comparing refusal and surviving references with the model, and by an "
-          "independent monitor (raw tree diff, relation reads of former referrers, byte comparison after a refusal)."),
+          "independent monitor (raw tree diff, relation reads of former referrers, byte comparison after a refusal)."
+          ' Deletions are additionally executed by the accessor model over the real tree (enter-all / remove / exit-all with reference search and per-kind purge contexts); a refusal in the enter phase is proved to change nothing.'),
     design_ref="§6 C09",
     note="Trusted: Lean kernel; the harness's classification of references by accessor kind; find_references' XPath pre-filter is validated by the raw scan (C10 covers it in depth).",
     technique="Lean 4 proof (two-phase deletion on a reference graph: coverage of purge contexts, refusal before write) + differential correspondence and raw-diff monitor on real deletions",
